@@ -131,13 +131,182 @@ theorem rebuild_eq_new (nm : Naming) (e0 : Eng) (ops : List EngOp) :
     simp only [histQuery, h1]
     simp [topCandsHist, engStep, engNew, Eng.krules]
 
+/-! ### candidate coverage on engine states (arbitrary rule names, disabled rules) -/
+
+theorem mem_positionsOf {crs : List C16.CRule} {p : C16.CRule → Bool} {i : Nat} {c : C16.CRule}
+    (h : crs[i]? = some c) (hp : p c = true) : i ∈ positionsOf crs p := by
+  have hi : i < crs.length := by
+    rcases Nat.lt_or_ge i crs.length with hlt | hge
+    · exact hlt
+    · rw [List.getElem?_eq_none hge] at h; cases h
+  simp only [positionsOf, List.mem_filter, List.mem_range]
+  exact ⟨hi, by simp [h, hp]⟩
+
+/-- **sub-goal candidates cover, for arbitrary rule names and with disabled rules present**: every ENABLED live rule that assigns
+the wanted value is offered (renumbered to its position among the enabled rules) by `rule_could_prove_pattern` over the live
+`kb.get_rules()` — on every engine state, whatever its history and however stale its index (sub-goals never use the index) -/
+theorem subCandsHist_covers (nm : Naming) (e : Eng) (b : Atom) :
+    Covers (enabledRules e.krules) (subCandsHist nm e b) b := by
+  intro r hr hcon
+  simp only [enabledRules, List.mem_map, List.mem_filter] at hr
+  obtain ⟨k, ⟨hk, hen⟩, hkr⟩ := hr
+  obtain ⟨p, hp⟩ := List.mem_iff_getElem?.mp hk
+  refine ⟨remap e.krules p, ?_, ?_⟩
+  · simp only [subCandsHist, List.mem_map]
+    refine ⟨p, ?_, rfl⟩
+    simp only [Eng.krules, List.getElem?_map, Option.map_eq_some_iff] at hp
+    obtain ⟨nr, hnr, hnk⟩ := hp
+    have hc : (crulesN nm e.kb.rules)[p]? =
+        some ⟨nm.rule nr.name, nr.k.enabled, (allActs nr.k.rule).map (actKind nm)⟩ := by
+      simp [crulesN, hnr]
+    refine mem_positionsOf hc ?_
+    have hset := set_mem_of_concludes nm 0 r b.field b.val hcon
+    simp only [couldProvePattern, List.any_eq_true]
+    refine ⟨C16.Act.set (nm.field b.field), ?_, contains_pattern_field nm b⟩
+    rw [hnk, hkr]
+    simpa [toCRule] using hset
+  · rw [← hkr]
+    exact remap_enabled e.krules p k hp hen
+
+
+section
+open C16 (CRule COp cCurrent cFind cFromRules)
+
+/-- a rule list with pairwise different names: every rule is the one the index has registered under its name -/
+theorem current_of_nodup (crs : List CRule) (hnd : (crs.map (·.name)).Nodup) (c : CRule) (hc : c ∈ crs) :
+    ((crs.map COp.add).foldl cCurrent []).find c.name = some c := by
+  let m : C16.Map String CRule := crs.map (fun c => (c.name, c))
+  have hvals : m.map (·.2) = crs := by simp [m, List.map_map, Function.comp_def]
+  have hkeys : m.map (·.1) = crs.map (·.name) := by simp [m, List.map_map, Function.comp_def]
+  have hnd' : C16.Map.NodupKeys m := by
+    unfold C16.Map.NodupKeys
+    rw [hkeys]
+    exact hnd
+  have hinv : C16.KbInv m := ⟨hnd', by
+    intro k c hm
+    obtain ⟨c', _, he⟩ := List.mem_map.mp hm
+    cases he
+    rfl⟩
+  have hm : (c.name, c) ∈ m := List.mem_map.mpr ⟨_, hc, rfl⟩
+  have hcur := C16.current_of_kb m hinv [] c.name
+  rw [hvals] at hcur
+  have hk : c.name ∈ m.map (·.1) := List.mem_map.mpr ⟨_, hm, rfl⟩
+  rw [if_pos hk, C16.Map.find_of_mem m hnd' hm] at hcur
+  exact hcur
+
+/-- with pairwise different names, the live position of a rule's name is the rule's position -/
+theorem livePos_of_nodup (live : List CRule) (hnd : (live.map (·.name)).Nodup) (p : Nat) (c : CRule)
+    (h : live[p]? = some c) : livePos live c.name = p := by
+  have hp : p < live.length := by
+    rcases Nat.lt_or_ge p live.length with hlt | hge
+    · exact hlt
+    · rw [List.getElem?_eq_none hge] at h; cases h
+  have hc : live[p] = c := by
+    rw [List.getElem?_eq_getElem hp] at h; exact Option.some.inj h
+  unfold livePos
+  have : live.findIdx? (fun r => r.name == c.name) = some p := by
+    rw [List.findIdx?_eq_some_iff_getElem]
+    refine ⟨hp, by simp [hc], ?_⟩
+    intro j hj
+    have hjl : j < live.length := by omega
+    simp only [beq_iff_eq]
+    intro heq
+    have hj' : j < (live.map (·.name)).length := by simpa using hjl
+    have hp' : p < (live.map (·.name)).length := by simpa using hp
+    have h1 : (live.map (·.name))[j] = (live.map (·.name))[p] := by simp [heq, hc]
+    exact (List.pairwise_iff_getElem.mp hnd) j p hj' hp' hj h1
+  rw [this]
+
+/-- **top-level candidates cover, for arbitrary (pairwise different) rule names and with disabled rules present**, on an engine
+whose index is fresh: every ENABLED live rule that assigns the wanted value is proposed by the index (`C16.from_rules_complete`),
+the non-empty lookup keeps the fallback off, the name leads back to the rule's live position (`livePos_of_nodup`), which is
+renumbered to its position among the enabled rules (`remap_enabled`) -/
+theorem topCandsHist_covers (nm : Naming) (e : Eng) (goal : Atom) (hfresh : indexFresh nm e = true)
+    (hnd : (e.kb.rules.map fun r => nm.rule r.name).Nodup) (hop : goal.op = .eq) (hf : FieldOk (nm.field goal.field)) :
+    Covers (enabledRules e.krules) ((topCandsHist nm e (patternOf nm goal)).1.map (remap e.krules)) goal := by
+  have hidx : e.idx = crulesN nm e.kb.rules := of_decide_eq_true hfresh
+  have hnd' : ((crulesN nm e.kb.rules).map (·.name)).Nodup := by
+    simpa [crulesN, List.map_map, Function.comp_def] using hnd
+  intro r hr hcon
+  simp only [enabledRules, List.mem_map, List.mem_filter] at hr
+  obtain ⟨k, ⟨hk, hen⟩, hkr⟩ := hr
+  obtain ⟨p, hp⟩ := List.mem_iff_getElem?.mp hk
+  have hp' := hp
+  simp only [Eng.krules, List.getElem?_map, Option.map_eq_some_iff] at hp'
+  obtain ⟨nr, hnr, hnk⟩ := hp'
+  let c : CRule := ⟨nm.rule nr.name, nr.k.enabled, (allActs nr.k.rule).map (actKind nm)⟩
+  have hc : (crulesN nm e.kb.rules)[p]? = some c := by simp [crulesN, hnr, c]
+  have hcm : c ∈ crulesN nm e.kb.rules := List.mem_of_getElem? hc
+  have hset : C16.Act.set (C16.extractField (patternOf nm goal)) ∈ c.actions := by
+    rw [extractField_pattern nm goal hop hf]
+    have := set_mem_of_concludes nm 0 r goal.field goal.val hcon
+    show _ ∈ (allActs nr.k.rule).map (actKind nm)
+    rw [hnk, hkr]
+    simpa [toCRule] using this
+  have hfound := C16.from_rules_complete (crulesN nm e.kb.rules) (patternOf nm goal) c
+    (current_of_nodup _ hnd' c hcm) (by simp [c, hnk, hen]) hset
+  refine ⟨remap e.krules p, ?_, ?_⟩
+  · simp only [topCandsHist, hidx, List.mem_map]
+    have hne : (cFind (cFromRules (crulesN nm e.kb.rules)) (patternOf nm goal)).isEmpty = false := by
+      cases hl : cFind (cFromRules (crulesN nm e.kb.rules)) (patternOf nm goal) with
+      | nil => rw [hl] at hfound; cases hfound
+      | cons _ _ => rfl
+    refine ⟨p, ?_, rfl⟩
+    simp only [hne, Bool.false_eq_true, if_false, List.mem_map]
+    exact ⟨c.name, hfound, livePos_of_nodup _ hnd' p c hc⟩
+  · rw [← hkr]
+    exact remap_enabled e.krules p k hp hen
+
+
+end
+
+/-- `KnowledgeBase` edits keep the registered names pairwise different (`add_rule` rejects an existing name) -/
+theorem kbStep_names_nodup (kb : Kb) (op : KbOp) (h : (kb.rules.map (·.name)).Nodup) :
+    ((kbStep kb op).rules.map (·.name)).Nodup := by
+  cases op with
+  | add n k =>
+    simp only [kbStep]
+    split
+    · exact h
+    · rename_i hn
+      simp only [List.map_append, List.map_cons, List.map_nil]
+      refine List.nodup_append.mpr ⟨h, by simp, ?_⟩
+      intro a ha b hb
+      simp only [List.mem_singleton] at hb
+      subst hb
+      intro hab
+      subst hab
+      apply hn
+      obtain ⟨r, hr, hrn⟩ := List.mem_map.mp ha
+      simp only [Kb.has, List.any_eq_true, beq_iff_eq]
+      exact ⟨r, hr, hrn⟩
+  | remove n =>
+    simp only [kbStep]
+    split
+    · exact List.Nodup.sublist (List.Sublist.map _ List.filter_sublist) h
+    · exact h
+  | enable n b =>
+    simp only [kbStep]
+    split
+    · have : (kb.rules.map (fun r => if r.name == n then (⟨r.name, ⟨r.k.rule, b⟩⟩ : NRule) else r)).map (·.name)
+          = kb.rules.map (·.name) := by
+        rw [List.map_map]
+        apply List.map_congr_left
+        intro r _
+        simp only [Function.comp]
+        split <;> rfl
+      rw [this]; exact h
+    · exact h
+  | clear => simp [kbStep]
+
 /-- the full statement: a goal derivable from the enabled live rules is provable after any sequence of knowledge-base edits
-followed by `rebuild_index`, with the candidates the engine computes and every enumeration of the index's answer -/
+followed by `rebuild_index`, with the candidates the engine computes and every enumeration of the index's answer; the rule
+names are pairwise different by POSITION (what `add_rule` maintains: `kbStep_names_nodup`) -/
 def hist_complete_full : Prop :=
   ∀ (nm : Naming) (e0 : Eng) (ops : List EngOp) (maxDepth maxSol : Nat) (goal : Atom) (ord : List Nat → List Nat) (st : Store)
     (h : Nat),
     let e := engStep nm (ops.foldl (engStep nm) e0) .rebuild
-    (∀ l, ∀ i ∈ l, i ∈ ord l) → (∀ r ∈ e.kb.rules, ∀ r' ∈ e.kb.rules, nm.rule r.name = nm.rule r'.name → r = r') →
+    (∀ l, ∀ i ∈ l, i ∈ ord l) → (e.kb.rules.map fun r => nm.rule r.name).Nodup →
     FieldOk (nm.field goal.field) →
     KbCons (enabledRules e.krules) → Compat (enabledRules e.krules) st.data → h ≤ maxDepth + 1 →
     Deriv (enabledRules e.krules) st.data h goal →
@@ -160,6 +329,33 @@ theorem hist_complete_partial (nm : Naming) (e0 : Eng) (ops : List EngOp) (maxDe
   refine ⟨rebuild_index_fresh nm _, ?_⟩
   intro hkb hst htop hsub hh hd
   exact dfs_complete _ maxDepth maxSol _ goal _ st hkb hst htop hsub h hh hd
+
+/-- **bounded completeness over histories, no coverage hypothesis left**: after ANY sequence of knowledge-base edits followed
+by `rebuild_index`, for arbitrary (pairwise different) rule names and with disabled rules present, a goal with a derivation of
+height ≤ `max_depth + 1` through the ENABLED live rules is provable by the depth-first query with the candidates the engine
+computes (`topCandsHist_covers`, `subCandsHist_covers`), for every enumeration of the index's answer -/
+theorem hist_complete_full_holds : hist_complete_full := by
+  intro nm e0 ops maxDepth maxSol goal ord st h e hord hnd hf hkb hst hh hd
+  have hp := (hist_complete_partial nm e0 ops maxDepth maxSol goal ord st h).2
+  refine hp hkb hst ?_ (fun _ _ b _ => subCandsHist_covers nm _ b) hh hd
+  intro r hr hcon
+  obtain ⟨i, hi, hk⟩ := topCandsHist_covers nm e goal (rebuild_index_fresh nm _) hnd hd.op_eq hf r hr hcon
+  exact ⟨i, hord _ i hi, hk⟩
+
+/-- non-vacuity of the name hypothesis and of the coverage lemmas: a DISABLED rival `R1`, rules registered under the names 0, 1, 4
+(not their positions), `R0` removed and re-added (it moves to the end) — the names stay pairwise different, and the candidates of
+`G == true` on the rebuilt index are exactly the position of the enabled concluding rule among the enabled rules -/
+example :
+    let nm : Naming := ⟨fun i => (["A", "B", "C", "D", "E", "G", "X", "Y"][i]?).getD "?", ruleNameR⟩
+    let r0 : KRule := ⟨⟨.atom ⟨6, .eq, .num 1⟩, [(5, .bool true)], []⟩, true⟩
+    let r1 : KRule := ⟨⟨.atom ⟨6, .eq, .num 1⟩, [(5, .bool false)], []⟩, false⟩
+    let r4 : KRule := ⟨⟨.atom ⟨7, .eq, .bool true⟩, [(0, .bool true)], []⟩, true⟩
+    let e := engStep nm ([EngOp.kb (.remove 0), .kb (.add 0 r0), .kb (.add 1 r1)].foldl (engStep nm)
+      (engNew nm [⟨0, r0⟩, ⟨1, r1⟩, ⟨4, r4⟩])) .rebuild
+    (e.kb.rules.map fun r => nm.rule r.name).Nodup ∧ e.kb.rules.map (·.name) = [1, 4, 0] ∧
+    (topCandsHist nm e (patternOf nm wGoal)).1.map (remap e.krules) = [1] ∧
+    enabledRules e.krules = [r4.rule, r0.rule] := by
+  decide +kernel
 
 /-- non-vacuity: R0 (`Y ⇒ G`) removed, R2 (`X == 1 ⇒ G`) added, `rebuild_index`: the goal is provable through the new rule;
 WITHOUT the rebuild the stale index still names R0 only and the goal is not provable -/
